@@ -236,16 +236,16 @@ structure AtomRead where
 /-- three-valued result: `none` = the model says nothing about this input -/
 abbrev R (α : Type) := Option (Except Err α)
 
+/-- the charge field: `"  "` is 0; otherwise the two characters (reversed unless the first is a sign) go through
+`int()` (numpy's string-to-int cast), e.g. `"1+"`, `"+1"`, `" 1"`, `"1 "`; anything else is a ValueError -/
 def parseCharge (s : List Char) : R Int :=
   if s == "  ".toList then some (.ok 0) else
-  match s with
-  | [a, b] =>
-    let (sg, dg) := if a == '+' || a == '-' then (a, b) else (b, a)
-    if isDig dg && (sg == '+' || sg == '-') then
-      let v : Int := (dg.toNat - 48 : Nat)
-      some (.ok (if sg == '-' then -v else v))
-    else none
-  | _ => none
+  let c := match s with
+    | a :: _ => if a == '+' || a == '-' then s else s.reverse
+    | [] => s
+  match pyInt? c with
+  | some v => some (.ok v)
+  | none => some (.error .valueError)
 
 def liftE {α : Type} (e : Except Err α) : R α := some e
 
@@ -336,28 +336,25 @@ def findIdx (ids : List Int) (v : Int) : Option Nat :=
   let hits := (enum ids).filter (fun p => p.2 = v)
   hits.getLast?.map (·.1)
 
-/-- one CONECT record: the (center, partner) index pairs it contributes -/
+/-- one CONECT record: the (center, partner) index pairs it contributes.  An id that belongs to no atom of the
+structure (removed by the altloc filter, absent from the file) contributes nothing (after fix 367a9a04);
+with duplicate ids the last atom carrying the id wins. -/
 def conectPairs (ids : List Int) (l : List Char) : R (List (Nat × Nat)) :=
   match decodeH36 (slice 6 11 l) with
   | .error e => some (.error e)
   | .ok cid =>
+    let fields := [slice 11 16 l, slice 16 21 l, slice 21 26 l, slice 26 31 l]
+    let decoded := (fields.map decodeH36).takeWhile (fun r => match r with | .ok _ => true | .error _ => false)
+    let ps := decoded.filterMap (fun r => match r with | .ok v => some v | .error _ => none)
     match findIdx ids cid with
-    | none => none
-    | some c =>
-      let fields := [slice 11 16 l, slice 16 21 l, slice 21 26 l, slice 26 31 l]
-      let decoded := (fields.map decodeH36).takeWhile (fun r => match r with | .ok _ => true | .error _ => false)
-      let ps := decoded.filterMap (fun r => match r with | .ok v => some v | .error _ => none)
-      match ps.mapM (findIdx ids) with
-      | none => none
-      | some js => some (.ok (js.map fun j => (c, j)))
+    | none => some (.ok [])
+    | some c => some (.ok ((ps.filterMap (findIdx ids)).map fun j => (c, j)))
 
-/-- `_get_bonds` for strictly positive, strictly increasing atom ids whose CONECT ids all occur
-among the atoms; anything else is outside the model. -/
+/-- `_get_bonds`: any atom ids (negative ones too, after fix 9c2dc54a), as long as none exceeds the last one
+(`IndexError` -> `InvalidFileError`, "not strictly increasing"). -/
 def readBonds (ids : List Int) (lines : List (List Char)) : R (List (Nat × Nat)) :=
-  let incr := (ids.zip (ids.drop 1)).all (fun p => p.1 < p.2) && ids.all (fun i => 0 < i)
-  -- `atom_id_to_index[id] = i` beyond the last id: IndexError -> InvalidFileError
-  if ids.all (fun i => 0 < i) && ids.any (fun i => decide (ids.getLast?.getD 0 < i)) then some (.error .invalidFile) else
-  if !incr || ids.isEmpty then none else
+  if ids.isEmpty then none else
+  if ids.any (fun i => decide (ids.getLast?.getD 0 < i)) then some (.error .invalidFile) else
   let con := lines.filter (startsWith "CONECT".toList)
   match mapMR (conectPairs ids) con with
   | none => none
@@ -592,7 +589,14 @@ def readCell (lines0 : List (List Char)) : Option (Option CellRead) :=
 `_check_number_columns` raise `BadStructureError` (like every other failed check) before anything is written. -/
 def writePdbN (fl : Flags) (cell : Option Cell) (s : StructN) : Except Err (List (List Char)) :=
   match s.finite? fl with
-  | some s' => writePdbBox fl cell s'
+  | some s' =>
+    if s'.atoms.isEmpty then
+      -- no atoms: the compatibility check still runs (a bad box is a BadStructureError), then numpy refuses the
+      -- empty character arrays with a ValueError
+      (match cell with
+       | some u => if checkCell u then .error .valueError else .error .badStructure
+       | none => .error .valueError)
+    else writePdbBox fl cell s'
   | none => .error .badStructure
 
 /-! ## alternate locations (`get_structure(altloc=…)`, `filter_first_altloc`, `filter_highest_occupancy_altloc`) -/
